@@ -188,7 +188,7 @@ AttrAllowed(prog, a, ctx, f) ==
     [] a.name = "text_output" /\ a.back = "" -> ~a.dflt /\ ctx \in {"phys", "virt"}
     [] a.name \in {"maximum_bits", "is_signed"} /\ a.back = "" -> ~a.dflt /\ ctx = "enum"
     [] a.name = "namespace" /\ a.back = "cpp" -> ~a.dflt /\ ctx = "module"
-    [] a.name = "enum_case" /\ a.back \in {"cpp", ""} ->
+    [] a.name = "enum_case" /\ a.back = "cpp" ->          \* "(cpp) enum_case": a C++ back-end attribute
            (a.dflt /\ ctx \in {"module", "struct", "bits", "enum"}) \/ (~a.dflt /\ ctx = "enumval")
     [] OTHER -> FALSE
 
